@@ -66,6 +66,45 @@ func c19CmpRL(want, got corev1.ResourceList) (kind, what string) {
 	return "", ""
 }
 
+// The alphabets are shared by all cases and workers: the code under check only ever sees deep copies, the comparison
+// uses the alphabet value (a Set that edits its argument must not be able to edit the expectation with it).
+func c19CopyStatus(s *ResourceStatus) *ResourceStatus {
+	c := &ResourceStatus{CPUSet: s.CPUSet}
+	if s.NUMANodeResources != nil {
+		c.NUMANodeResources = make([]NUMANodeResource, len(s.NUMANodeResources))
+		for i, r := range s.NUMANodeResources {
+			c.NUMANodeResources[i] = NUMANodeResource{Node: r.Node, Resources: r.Resources.DeepCopy()}
+		}
+	}
+	return c
+}
+
+func c19CopyDevices(a DeviceAllocations) DeviceAllocations {
+	if a == nil {
+		return nil
+	}
+	c := DeviceAllocations{}
+	for t, l := range a {
+		if l == nil {
+			c[t] = nil
+			continue
+		}
+		nl := make([]*DeviceAllocation, len(l))
+		for i, d := range l {
+			nd := &DeviceAllocation{Minor: d.Minor, ID: d.ID, Resources: d.Resources.DeepCopy()}
+			if d.Extension != nil {
+				nd.Extension = &DeviceAllocationExtension{GPUSharedResourceTemplate: d.Extension.GPUSharedResourceTemplate}
+				if d.Extension.VirtualFunctions != nil {
+					nd.Extension.VirtualFunctions = append([]VirtualFunction{}, d.Extension.VirtualFunctions...)
+				}
+			}
+			nl[i] = nd
+		}
+		c[t] = nl
+	}
+	return c
+}
+
 // CPU set strings --------------------------------------------------------------------------------------------------------
 
 type c19CPUStr struct {
@@ -94,7 +133,7 @@ func c19Canon(ids []int) string { // harness-side canonical rendering (independe
 func c19CPUStrings(thorough bool) []c19CPUStr {
 	universe := []int{0, 1, 2, 3, 5, 8, 9}
 	if thorough {
-		universe = []int{0, 1, 2, 3, 5, 8, 9, 10, 64}
+		universe = []int{0, 1, 2, 3, 5, 8, 9, 64}
 	}
 	var out []c19CPUStr
 	for m := 0; m < 1<<uint(len(universe)); m++ {
@@ -232,12 +271,15 @@ func c19CodecStatus(env c19Env) {
 		{CPUSet: "0-7,16", NUMANodeResources: []NUMANodeResource{{Node: 2, Resources: c19RL("cpu", "8", "memory", "1Gi")}, {Node: 0, Resources: c19RL("cpu", "1")}}},
 		{NUMANodeResources: []NUMANodeResource{{Node: 1, Resources: c19RL("nvidia.com/gpu", "1")}}},
 	}
-	rx := mc.Radix{Dims: []int{len(cpus), len(lists), 2, len(olds)}}
-	res.Rule = "every CPU set string (every subset of a small id universe rendered by cpuset.String, plus unsorted / single-element / reversed-range / duplicated renderings, plus large ids) x every ordered list of up to two (quick) / three (thorough) NUMA entries over nodes {0,1,3} x resource-list alphabet (nil, empty, zero amounts, fractional, several resources) x {Pod, Reservation} x {no older value, two older values}; distinct = distinct written values"
-	res.Bounds = map[string]any{"cpuset_strings": len(cpus), "numa_lists": len(lists), "object_kinds": 2, "older_values": len(olds)}
+	// object kind and older value do not interact with the written value: four of the six combinations
+	variants := [][2]int{{0, 0}, {1, 1}, {0, 2}, {1, 0}}
+	rx := mc.Radix{Dims: []int{len(cpus), len(lists), len(variants)}}
+	res.Rule = "every CPU set string (every subset of a small id universe rendered by cpuset.String, plus unsorted / single-element / reversed-range / duplicated renderings, plus large ids) x every ordered list of up to two (quick) / three (thorough) NUMA entries over nodes {0,1,3} x resource-list alphabet (nil, empty, zero amounts, fractional, several resources) x {Pod without older value, Reservation without, Reservation over older value 1, Pod over older value 2}; distinct = distinct written values"
+	res.Bounds = map[string]any{"cpuset_strings": len(cpus), "numa_lists": len(lists), "object_kind_and_older_value_variants": len(variants)}
 	ds := mc.NewDistinctSet()
 	done, complete := env.ParallelRangeL(res, rx.Size(), func(l *mc.Local, i int64) {
 		d := rx.Decode(i, make([]int, 0, 4))
+		d = append(d[:2], variants[d[2]][0], variants[d[2]][1])
 		l.Evals++
 		cs, list, old := cpus[d[0]], lists[d[1]], olds[d[3]]
 		obj := c19Obj(d[2])
@@ -248,13 +290,13 @@ func c19CodecStatus(env c19Env) {
 				Replay: map[string]any{"cpuset": cs.s, "numa": c19StatusString(want), "kind": d[2], "old": d[3]}})
 		}
 		if old != nil {
-			if err := SetResourceStatus(obj, old); err != nil {
+			if err := SetResourceStatus(obj, c19CopyStatus(old)); err != nil {
 				fail("resource-status|set-error", err.Error())
 				return
 			}
 			l.Count("set_over_an_older_value", 1)
 		}
-		if err := SetResourceStatus(obj, want); err != nil {
+		if err := SetResourceStatus(obj, c19CopyStatus(want)); err != nil {
 			fail("resource-status|set-error", err.Error())
 			return
 		}
@@ -488,13 +530,13 @@ func c19CodecDevices(main *mc.Env) {
 					Replay: map[string]any{"written": c19DevicesString(want), "kind": kind, "old": oldI}})
 			}
 			if oldI != 0 {
-				if err := SetDeviceAllocations(obj, olds[oldI]); err != nil {
+				if err := SetDeviceAllocations(obj, c19CopyDevices(olds[oldI])); err != nil {
 					fail("device-allocations|set-error", err.Error())
 					return
 				}
 				l.Count("set_over_an_older_value", 1)
 			}
-			if err := SetDeviceAllocations(obj, want); err != nil {
+			if err := SetDeviceAllocations(obj, c19CopyDevices(want)); err != nil {
 				fail("device-allocations|set-error", err.Error())
 				return
 			}
@@ -668,9 +710,9 @@ func c19CodecCoexist(env c19Env) {
 		for _, which := range orders[d[3]] {
 			switch which {
 			case 0:
-				_ = SetResourceStatus(pod, st)
+				_ = SetResourceStatus(pod, c19CopyStatus(st))
 			case 1:
-				_ = SetDeviceAllocations(pod, dv)
+				_ = SetDeviceAllocations(pod, c19CopyDevices(dv))
 			case 2:
 				SetReservationAllocated(pod, rv)
 			}
